@@ -9,7 +9,8 @@ POOL_TEXT = ("TLC explores the implementation-level TLA+ specification of the po
              "monitor, run by TLC over traces recorded from the real pool (TLC-generated schedules replayed in lock-step, directed "
              "reproductions, seeded random schedules, several pools per loop), gives the verdict on the code; the commands executed for "
              "random/directed schedules are followed in PoolImpl by TLC (spec/PoolFollow.tla) to measure the model's fidelity; Apalache "
-             "proves the slot-accounting lemma (spec/SlotAccounting.tla) inductive for every pool size and TLC checks that PoolImpl refines it. "
+             "proves the slot-accounting lemma (spec/SlotAccounting.tla) inductive for every pool size, tlapm checks its deductive proof "
+             "(spec/proofs/SlotProof.tla) and TLC checks that PoolImpl refines it. "
              "Exhaustive only within the stated bounds; beyond them the executed schedules are a sample.")
 POOL_NOTE = ("Trusted: CPython 3.12 asyncio internals used to single-step the real event loop; harness-owned workers/callbacks/"
              "iterators report their events truthfully; TLC. The specification is bound to the code by lock-step replay of its "
@@ -19,7 +20,7 @@ CLAIMED = {}
 for i in range(1, 16):
     CLAIMED["C%02d" % i] = dict(
         category="model_checking", text=POOL_TEXT, note=POOL_NOTE, design_ref="DESIGN.md sections 3-6",
-        technique="TLA+ spec (PoolImpl + Monitor) model-checked with TLC; trace validation of real executions against the TLA+ monitor; TLC-generated schedules replayed on the code in lock-step; executed schedules followed in the spec; Apalache inductive lemma",
+        technique="TLA+ spec (PoolImpl + Monitor) model-checked with TLC; trace validation of real executions against the TLA+ monitor; TLC-generated schedules replayed on the code in lock-step; executed schedules followed in the spec; Apalache inductive lemma + TLAPS proof",
         engine="pool")
 
 CTL_NOTE = ("Trusted: argparse/asyncio streams of CPython 3.12; sessions are driven through ControlServer._client_connected_cb over "
@@ -42,8 +43,10 @@ CLAIMED["C18"] = dict(category="model_checking", engine="control", design_ref="D
     technique="TLA+ session protocol model-checked with TLC; its behaviours replayed on real sessions; trace validation by the same spec")
 CLAIMED["C19"] = dict(category="model_checking", engine="control", design_ref="DESIGN.md section 6 (C19)", note=CTL_NOTE,
     text="spec/Control.tla lifecycle (idle/serving/stopping/stopped, connections, 3.12 wait_closed): TLC checks DoneMeansGone, PoolUntouched and the "
-         "liveness property StopCompletes under fairness; event orders (serve, connect, command, disconnect by close/EOF/CLI exit, stop) generated "
-         "from the spec are run on real TCP and Unix sockets, the bundled CLI client as a subprocess, and judged by Control!SockMon.",
+         "liveness property StopCompletes under fairness (StopCompletesStrict must be violated by the model of the code as written: known finding KF-L); "
+         "event orders (serve, connect, overlapping handshakes, commands incl. waiting ones, disconnect by close/EOF/CLI exit, stop, restart) generated "
+         "from the spec plus directed ones are run on real TCP and Unix sockets, the bundled CLI client as a subprocess, and judged by Control!SockMon, "
+         "including that the reply to concrete query lines equals what the method call gives (reply rule of C17 over a real transport).",
     technique="TLA+ server lifecycle spec (safety + liveness) with TLC; spec-generated event orders run on real sockets; trace validation")
 
 CLAIMED["C20"] = dict(category="model_checking", engine="queue", design_ref="DESIGN.md section 6 (C20)",
@@ -51,8 +54,10 @@ CLAIMED["C20"] = dict(category="model_checking", engine="queue", design_ref="DES
          "unfinished count is compared after every step); harness-owned consumers report their events truthfully; unbounded queue only.",
     text="spec/QueueCtx.tla models asyncio.Queue + the context manager on the kernel model; TLC explores every schedule of puts, consumers, joins, body "
          "outcomes and cancellations (while waiting, after hand-over, inside the block) within small bounds and checks the property monitor QMon and the "
-         "accounting invariants; all behaviours are replayed in lock-step on the real Queue and the recorded runs are judged by QMon.",
-    technique="TLA+ model of Queue + context manager model-checked with TLC; behaviours replayed in lock-step on the real Queue; trace validation by the monitor")
+         "accounting invariants; all behaviours are replayed in lock-step on the real Queue and the recorded runs are judged by QMon. The counting argument "
+         "is proved for any number of items/consumers/joiners: spec/QueueAccounting.tla (Apalache: inductive invariant; tlapm: spec/proofs/QueueProof.tla), "
+         "and TLC checks that QueueCtx refines it.",
+    technique="TLA+ model of Queue + context manager model-checked with TLC; behaviours replayed in lock-step on the real Queue; trace validation by the monitor; Apalache inductive lemma + TLAPS proof")
 
 NOT_YET = {}
 
